@@ -44,18 +44,46 @@ theorem Stable.facs (f : List Factory → Prop) : Stable (fun w => f w.facs) := 
 theorem Stable.sessions (f : List Session → Prop) : Stable (fun w => f w.sessions) :=
   ⟨fun w w' he h => he.sessions ▸ h⟩
 
-macro "stable_step" : tactic => `(tactic| first
-  | exact Stable.const _
-  | exact Stable.goodKeyAt _ _ | exact Stable.wraps _ _ | exact Stable.mem_store _ | exact Stable.cacheGood _
-  | with_reducible assumption
-  | apply Stable.and | apply Stable.or | apply Stable.imp | apply Stable.exists | apply Stable.forall
-  | exact Stable.now _ | exact Stable.facs _ | exact Stable.sessions _
-  | (intro _))
+/-- key object `o` exists with this creation stamp and material (both immutable). -/
+def KeyIs (w : World) (o : Nat) (c : Int) (m : Nat) : Prop :=
+  ∃ ko, w.keys[o]? = some ko ∧ ko.created = c ∧ ko.mat = m
 
-syntax "stable_auto" ("[" Lean.Parser.Tactic.SolveByElim.arg,* "]")? : tactic
-macro_rules
-  | `(tactic| stable_auto) => `(tactic| repeat (any_goals stable_step))
-  | `(tactic| stable_auto [$ls,*]) => `(tactic| repeat (any_goals (first | stable_step | apply_rules [$ls,*])))
+theorem KeyIs.ext {w w' : World} (h : Ext w w') {o : Nat} {c : Int} {m : Nat} (hk : KeyIs w o c m) : KeyIs w' o c m := by
+  obtain ⟨ko, h1, h2, h3⟩ := hk
+  obtain ⟨k', h1', h2', h3', _, _⟩ := h.keys o ko h1
+  exact ⟨k', h1', h2'.trans h2, h3'.trans h3⟩
+
+theorem Stable.keyIs (o : Nat) (c : Int) (m : Nat) : Stable (fun w => KeyIs w o c m) := ⟨fun _ _ he h => h.ext he⟩
+
+/-- key object `k` is the stored key of `m`'s id — exactly `m` unless `m` is the "latest" meta. -/
+def GoodFor (m : KeyMeta) (k : Nat) (w : World) : Prop :=
+  ∃ m0 : KeyMeta, m0.kid = m.kid ∧ (m.created ≠ 0 → m0 = m) ∧ GoodKeyAt w m0 k
+
+theorem Stable.goodFor (m : KeyMeta) (k : Nat) : Stable (fun w => GoodFor m k w) :=
+  ⟨fun w w' he ⟨m0, h1, h2, h3⟩ => ⟨m0, h1, h2, h3.ext he⟩⟩
+
+theorem Stable.goodFor' (m : KeyMeta) (k : Nat) : Stable (GoodFor m k) := Stable.goodFor m k
+
+/-- the creation stamp a key generated now would get is not the "latest" marker 0. -/
+def TimeOK (x : Ctx) (w : World) : Prop := keyTimestamp w.now x.pol.precision ≠ 0
+
+theorem Stable.timeOK (x : Ctx) : Stable (TimeOK x) := ⟨fun w w' he h => by unfold TimeOK at *; rw [he.now]; exact h⟩
+theorem Stable.timeOK' (x : Ctx) : Stable (fun w => TimeOK x w) := Stable.timeOK x
+
+macro "stable_atom" : tactic => `(tactic| first
+  | with_reducible exact Stable.const _
+  | with_reducible exact Stable.goodKeyAt _ _ | with_reducible exact Stable.wraps _ _
+  | with_reducible exact Stable.mem_store _ | with_reducible exact Stable.cacheGood _
+  | with_reducible exact Stable.keyIs _ _ _ | with_reducible exact Stable.goodFor _ _ | with_reducible exact Stable.goodFor' _ _
+  | with_reducible exact Stable.timeOK _ | with_reducible exact Stable.timeOK' _
+  | with_reducible assumption)
+
+macro "stable_struct" : tactic => `(tactic| first
+  | with_reducible apply Stable.and | with_reducible apply Stable.or | with_reducible apply Stable.imp
+  | with_reducible apply Stable.exists | with_reducible apply Stable.forall
+  | (with_reducible intro _))
+
+macro "stable_auto" : tactic => `(tactic| repeat (any_goals (first | stable_atom | stable_struct)))
 
 /-- what holds after a non-busted run. -/
 def Post {α : Type} (F : Prop) (G : α → World → Prop) (r : Except Err α) (w : World) : Prop :=
@@ -63,7 +91,7 @@ def Post {α : Type} (F : Prop) (G : α → World → Prop) (r : Except Err α) 
 
 structure Spec {α : Type} (a : Nat) (F : Prop) (P : World → Prop) (x : M α) (G : α → World → Prop) : Prop where
   ext : Extends x
-  post : ∀ w, a ≤ accessesAfterClose w → Inv w → (F → w.faults = []) → P w →
+  post : ∀ w, (F → a ≤ accessesAfterClose w) → Inv w → (F → w.faults = []) → P w →
     Bust a (x w).2 ∨ Post F G (x w).1 (x w).2
 
 theorem Spec.pure {α : Type} {a : Nat} {F : Prop} {P : World → Prop} {G : α → World → Prop} (v : α)
@@ -102,7 +130,7 @@ theorem Spec.bind {α β : Type} {a : Nat} {F : Prop} {P : World → Prop} {x : 
     | ok v =>
       rcases h1 with hb | ⟨i, f', g, s⟩
       · exact Or.inl (hb.ext ((hf v).ext w1))
-      · exact (hf v).post w1 (Nat.le_trans ha (aac_mono e1)) i f' (g v rfl)
+      · exact (hf v).post w1 (fun hF => Nat.le_trans (ha hF) (aac_mono e1)) i f' (g v rfl)
 
 /-- sequencing that keeps the (stable) precondition for the continuation. -/
 theorem Spec.bind_frame {α β : Type} {a : Nat} {F : Prop} {P P' : World → Prop} {x : M α} {f : α → M β}
@@ -136,14 +164,14 @@ theorem Spec.finallyDo {α : Type} {a : Nat} {F : Prop} {P : World → Prop} {x 
   have e2 := hfin.ext (x w).2
   rcases hx.post w ha hi hnf hp with hb | ⟨i, f', g, s⟩
   · exact Or.inl (hb.ext e2)
-  · rcases hfin.post (x w).2 (Nat.le_trans ha (aac_mono e1)) i f' trivial with hb | ⟨i2, f2, _, _⟩
+  · rcases hfin.post (x w).2 (fun hF => Nat.le_trans (ha hF) (aac_mono e1)) i f' trivial with hb | ⟨i2, f2, _, _⟩
     · exact Or.inl hb
     · exact Or.inr ⟨i2, f2, fun v hv => (hS v).st _ _ e2 (g v hv), s⟩
 
 /-- a computation that touches neither store nor caches: only its result needs an argument. -/
 theorem Spec.of_still {α : Type} {a : Nat} {F : Prop} {P : World → Prop} {x : M α} {G : α → World → Prop}
     (he : Extends x) (hs : Stills x)
-    (hr : ∀ w, a ≤ accessesAfterClose w → Inv w → (F → w.faults = []) → P w →
+    (hr : ∀ w, (F → a ≤ accessesAfterClose w) → Inv w → (F → w.faults = []) → P w →
       Bust a (x w).2 ∨ ((∀ v, (x w).1 = .ok v → G v (x w).2) ∧ (F → ∃ v, (x w).1 = .ok v))) :
     Spec a F P x G :=
   ⟨he, fun w ha hi hnf hp => (hr w ha hi hnf hp).imp id fun ⟨g, s⟩ =>
